@@ -143,9 +143,9 @@ def build_instances(tier):
     for k in ('KE', 'NOTIFY', 'NOTIFY0', 'DELETE', 'NONCE', 'ID', 'AUTH', 'VENDOR', 'TS', 'SA'):
         inst.append(Instance(f'encode {k}', h_encode, (k,), must_reach=[('encoded', lambda o: o[0] == 'encoded')]))
     known = sorted(int(k) for k in MODS['message'].Message.type_2_payload)
-    for n in (28, 31):
+    for n in {'quick': (28, 31), 'thorough': (28, 29, 30, 31)}[tier]:
         inst.append(Instance(f'idempotence n={n}', h_idem, (n, None)))
-    for n in {'quick': (32,), 'thorough': (32, 33, 36)}[tier]:
+    for n in (32,):
         for ft in known + [0, 'other']:
             inst.append(Instance(f'idempotence n={n} first={ft}', h_idem, (n, ft), engine_kw={'max_ticks': 4000}))
     return inst
@@ -227,7 +227,7 @@ def main(tier, seed):
                 bounds={'encoder': 'one message with one payload of each class (KE, NOTIFY with/without SPI, DELETE with 2 SPIs, NONCE, ID, '
                                    'AUTH, VENDOR, TS IPv4, SA with one proposal of two transforms), every header field and every payload '
                                    'field symbolic (data fields of the fixed small lengths in the harness)',
-                        'idempotence': 'every byte string of length 28, 31, 32 (thorough: 33, 36)',
+                        'idempotence': 'every byte string of length 28, 31, 32 (thorough: also 29, 30)',
                         'outside': 'payload combinations/longer chains (structure enumerated by the parser harness C06 only for '
                                    'termination/exceptions), IPv6 selectors, payloads inside SK (C07), the structured dump to_dict (string '
                                    'rendering of symbolic data is not modelled)'},
